@@ -6,6 +6,7 @@
    specification for these protocols yet).  Written by hand from those tables. *)
 From Coq Require Import String.
 From V Require Import Lib.Base Lib.Automata C16.SpecCardano.
+(* end of imports *)
 Local Open Scope string_scope.
 Local Open Scope N_scope.
 
